@@ -31,6 +31,13 @@ CHECKS = {
      "4.4"),
    note="Trusted: as C08. ape()/rpe() only in their argument-preserving configurations (with alignment/projection options they process their arguments in place by design); split_* returning [self] and merge_results of one result are recorded as aliases.",
    technique="deterministic simulation degenerate case: seeded derive-mutate-inspect histories over a pool of aliased objects, bitwise snapshots + per-object reference models"),
+ "C17": dict(
+   engine="E2-sandbox-io",
+   level=("exploration",
+     "Seeded histories of 3-12 writer/CLI operations in one tmpfs sandbox (each history in a forked process; a file written by operation k is an existing target for operation k+1) plus a seeded walk over the whole configuration matrix (11 sinks x exists x answer class x warnings x str/Path). A PEP 578 audit hook records every open/rename/remove/truncate of any library in one ordered log with the prompts and the 'exists, overwrite?' records; the user peer answers y/n/empty/Y/yes/'y '/' y'/text/EOF/Ctrl-C or runs out of answers; ENOSPC/EACCES is injected into confirmed writes. Oracle per pre-existing file: no mutating event before a 'y' attributed to it (bytes and inode unchanged otherwise), replaced by a valid output when confirmed or warnings disabled, no prompt when disabled, no unexpected new file. Sampling, not proof.",
+     "4.3"),
+   note="Trusted: the audit hook sees every Python-level file access (C-level access bypassing it would be invisible; the writers under test do none), tmpfs, in-process CLI invocation through the real parser + merge_config + main_*.run with SETTINGS restored between operations.",
+   technique="deterministic simulation: histories of writer/CLI operations against a monitored real disk and a scripted faulty user peer, with disk-fault injection through the audit hook"),
  "C18": dict(
    engine="E1-simfs-vproc",
    level=("exploration",
